@@ -1,6 +1,8 @@
 package checks
 
 import (
+	"bytes"
+	"encoding/json"
 	"testing"
 
 	"verifsim/kernel"
@@ -10,12 +12,42 @@ import (
 func TestC19(t *testing.T) {
 	kernel.Run(t, &kernel.Spec{
 		Prop: "C19", Engine: "schedsim",
-		Generate: schedsim.GenFeedPlan, Decode: schedsim.DecodeFeedPlan, Execute: schedsim.ExecFeed,
-		Shrink: schedsim.ShrinkFeedPlan, Hash: schedsim.HashFeedPlan,
+		// every third case drives event.TypeMux (the older dispatcher of the same package) instead of event.Feed
+		Generate: func(rng *kernel.RNG, env *kernel.Env, k int) any {
+			if k%3 == 2 {
+				return schedsim.GenMuxPlan(rng, env, k)
+			}
+			return schedsim.GenFeedPlan(rng, env, k)
+		},
+		Decode: func(raw json.RawMessage) (any, error) {
+			if bytes.Contains(raw, []byte(`"mux_actors"`)) {
+				return schedsim.DecodeMuxPlan(raw)
+			}
+			return schedsim.DecodeFeedPlan(raw)
+		},
+		Execute: func(t *testing.T, p any, col *kernel.Collector) []kernel.Violation {
+			if mp, ok := p.(*schedsim.MuxPlan); ok {
+				return schedsim.ExecMux(t, mp, col)
+			}
+			return schedsim.ExecFeed(t, p, col)
+		},
+		Shrink: func(p any) []any {
+			if mp, ok := p.(*schedsim.MuxPlan); ok {
+				return schedsim.ShrinkMuxPlan(mp)
+			}
+			return schedsim.ShrinkFeedPlan(p)
+		},
+		Hash: func(p any) uint64 {
+			if mp, ok := p.(*schedsim.MuxPlan); ok {
+				return schedsim.HashMuxPlan(mp)
+			}
+			return schedsim.HashFeedPlan(p)
+		},
 		StallS: 30, ShrinkBudget: 400,
 		Meta: map[string]any{
 			"components": map[string]string{
-				"event.Feed (Send/Subscribe/remove), feedSub, SubscriptionScope": "real",
+				"event.Feed (Send/Subscribe/remove), feedSub, SubscriptionScope":                          "real",
+				"event.TypeMux (Post/Subscribe/Unsubscribe/Stop), TypeMuxSubscription (every third case)": "real; interleaved at its blocking points (a Post blocked on a slow subscriber while others subscribe, unsubscribe, post or stop)",
 				"goroutine scheduling": "decided by the simulator: actors park on gates before every call and at 4 yield points inside Send/remove; one release at a time, synctest.Wait as quiescence barrier",
 				"subscribers":          "simulated: non-blocking polls issued only when released (slow subscriber = rarely released)",
 			},
